@@ -142,6 +142,11 @@ def c15_4(ctx):
     b = single_assign(fn, 'base')
     if b is None or N(b) != 'type(%s)' % tree:
         ctx.fail(fn, fn.node, 'new branches are not created with the type of the tree')
+    ig = [N(x.value) for x in body_nodes(fn.node) if isinstance(x, ast.Assign) and U(x.targets[0]) == 'ignore']
+    ctx.count(1)
+    if ig != ['as_list(ignore)']:
+        ctx.fail(fn, fn.node, 'the values to ignore are `%s`, expected as_list(ignore): no ignore list means NOTHING is ignored (as_list(None, none=True) is [None], which makes every None leaf of the update lose against the existing value)' % ig,
+                 stmt='ignore = %s' % ig, witness="tree_update(dict(a=1), dict(a=None)) == dict(a=None)")
     loops = [s for s in fn.body if isinstance(s, ast.For)]
     ctx.count(1)
     if not loops or U(loops[0].iter) != items or not calls_in(loops[0], '_tree_setitem'):
